@@ -38,8 +38,11 @@ def _chain(f, e, depth=0):
             continue
         break
     names.reverse()
-    # resolve `let xs = &mut self.locals[..]`
-    base = e
+    return names, _resolve_base(f, e)
+
+
+def _resolve_base(f, base):
+    """resolve `let xs = &mut self.locals[..]`: a local with a single initialiser stands for that initialiser"""
     for _ in range(4):
         lid = hir_local_id(hu.strip_all(base)) if base is not None else None
         if lid is None:
@@ -48,14 +51,20 @@ def _chain(f, e, depth=0):
         if len(inits) != 1:
             break
         base = hu.strip_all(inits[0])
-    return names, base
+    return base
 
 
-def _fields(e):
+def _fields(e, f=None, depth=0):
+    """names of the fields mentioned in an expression; with `f`, single-assignment locals (`let n = xs.len()`) are looked
+    through"""
     out = set()
     for x in hir_walk(e):
         if x.get("k") == "field":
             out.add(x["name"])
+        elif f is not None and depth < 3 and x.get("k") == "path" and x["path"]["res"].get("k") == "local":
+            inits = hu.let_inits(f).get(x["path"]["res"]["id"], [])
+            if len(inits) == 1:
+                out |= _fields(inits[0], f, depth + 1)
     return out
 
 
@@ -89,7 +98,35 @@ def _exits(body):
     return out
 
 
+def _records_every_hit(body):
+    """a loop body without early exit that stores into an outer local under an `if` whose condition does not read that
+    local: after the loop the local holds the LAST element satisfying the condition"""
+    def rec(e, conds):
+        if e is None:
+            return False
+        k = e.get("k")
+        if k in ("closure", "loop"):
+            return False
+        if k == "if":
+            return rec(e["then"], conds + [e["cond"]]) or (e.get("else") is not None and rec(e["else"], conds + [e["cond"]]))
+        if k == "assign" and conds:
+            lid = hir_local_id(hu.strip_all(e["l"]))
+            if lid is not None and not any(hir_local_id(y) == lid for c in conds for y in hir_walk(c) if y.get("k") == "path"):
+                return True
+        return any(rec(c, conds) for c in hir_children(e))
+    return rec(body, [])
+
+
 def searches(f):
+    cached = getattr(f, "_scoping_searches", None)
+    if cached is not None:
+        return list(cached)
+    out = _searches(f)
+    f._scoping_searches = out
+    return list(out)
+
+
+def _searches(f):
     out = []
     for x in hir_walk(f.hir["body"]):
         if x.get("k") == "match" and str(x.get("source", "")).startswith("ForLoopDesugar"):
@@ -115,7 +152,8 @@ def searches(f):
                 first_hit = all(c for _e, c in exits) and len(exits) >= 1
                 cond = [c for _e, cs in exits for c in cs]
             out.append({"kind": "for", "adapters": adapters, "terminal": "for", "base": base,
-                        "base_fields": _fields(base) if base is not None else set(), "first_hit": first_hit,
+                        "base_fields": _fields(base, f) if base is not None else set(), "first_hit": first_hit,
+                        "last_hit": (not exits) and _records_every_hit(some_arm["body"]),
                         "conds": cond or [], "exits": exits, "elem_ids": [i for i, _n in pat_bindings(some_arm["pat"])],
                         "elem_names": [n for _i, n in pat_bindings(some_arm["pat"])],
                         "node": x, "ln": scrut.get("ln"), "pat": some_arm["pat"]})
@@ -130,7 +168,7 @@ def searches(f):
             for p in clo.get("params", []):
                 ids += pat_bindings(p)
             out.append({"kind": "method", "adapters": adapters, "terminal": x["name"], "base": base,
-                        "base_fields": _fields(base) if base is not None else set(), "first_hit": True,
+                        "base_fields": _fields(base, f) if base is not None else set(), "first_hit": True, "last_hit": False,
                         "conds": [clo["body"]], "exits": [], "elem_ids": [i for i, _n in ids],
                         "elem_names": [n for _i, n in ids], "node": x, "ln": x.get("ln"), "pat": None})
     return out
@@ -143,7 +181,7 @@ def direction(s):
     if s["terminal"] in ("rposition", "rfind"):
         rev = not rev
     index_ok = None
-    if s["terminal"] == "for":
+    if s["terminal"] in ("for", "find", "rfind", "find_map"):
         if "enumerate" in ad:
             # enumerate before any rev: indices count from the front
             index_ok = "rev" not in ad[:ad.index("enumerate")]
@@ -171,37 +209,98 @@ def conj_eqs(e, neg=False):
     return None
 
 
-def rule_innermost(F, rid, fn_path, field, keybase):
+def _local_refs(e, f, depth=0):
+    """hir ids of the locals an expression mentions, single-assignment locals looked through"""
+    out = set()
+    for x in hir_walk(e):
+        if x.get("k") == "path" and x["path"]["res"].get("k") == "local":
+            lid = x["path"]["res"]["id"]
+            out.add(lid)
+            if depth < 3:
+                inits = hu.let_inits(f).get(lid, [])
+                if len(inits) == 1:
+                    out |= _local_refs(inits[0], f, depth + 1)
+    return out
+
+
+def searches_reachable(F, f, not_into=(), depth=2, _bind=None, _stack=()):
+    """The searches of `f` and of the crate functions it calls (private helpers a search was moved into), as
+    (owner function, search, fields): `fields` are the fields the searched collection is reached through, where a
+    parameter of a helper stands for the argument expression of the call (`Self::innermost(&self.locals[id], name)` searches
+    `.locals`). Calls into `not_into` (searches decided by a sibling rule) and recursive calls are not followed."""
+    bind = _bind or {}
+
+    def fields_of(e):
+        out = _fields(e, f)
+        for lid in _local_refs(e, f):
+            out |= bind.get(lid, set())
+        return out
+
+    out = []
+    for s in searches(f):
+        out.append((f, s, fields_of(s["base"]) if s["base"] is not None else set()))
+    if depth <= 0:
+        return out
+    for x in hir_walk(f.hir["body"]):
+        if x.get("k") not in ("call", "mcall"):
+            continue
+        for n in hir_callee(x):
+            g = F.fn(n, required=False)
+            if g is None or g.hir is None or g.is_closure or g is f or g.short in not_into or g.short in _stack:
+                continue
+            args = ([x["recv"]] if x.get("k") == "mcall" else []) + list(x["args"])
+            params = g.hir.get("params", [])
+            nb = {}
+            for a, p in zip(args, params):
+                fl = fields_of(a)
+                for pid, _nm in pat_bindings(p):
+                    nb[pid] = fl
+            out += searches_reachable(F, g, not_into, depth - 1, nb, _stack + (f.short,))
+            break
+    return out
+
+
+def rule_innermost(F, rid, fn_path, field, keybase, not_into=()):
     """The search over <field> in <fn_path> must yield the LAST declared element satisfying the condition and report its
-    front-based index. Accepted idioms (enumerated from the repository and the std API):
+    front-based index. The search may sit in <fn_path> itself or in a helper it calls (searches_reachable). Accepted idioms
+    (enumerated from the repository and the std API):
       for (i, x) in xs.iter[_mut]().enumerate().rev() { if cond { return .. i .. } }
       xs.iter().rposition(|x| cond)            xs.iter().enumerate().rev().find(..)
-    Violations: a forward first-hit scan (outermost binding wins), rev() before enumerate() or rev().position(..)
-    (index counts from the back). Any other shape is reported undecided (the rule's floor then fails closed)."""
+      for (i, x) in xs.iter().enumerate() { if cond { found = Some(i) } }     (no early exit: the last hit stays)
+    Violations: a forward first-hit scan (outermost binding wins), a reverse scan that keeps the last hit, rev() before
+    enumerate() or rev().position(..) (index counts from the back). Any other shape is reported undecided (the rule's floor
+    then fails closed)."""
     from cao.rules import ok, bad, undecided
     from cao.facts import AnchorMissing
     f = F.fn(fn_path)
-    ss = [s for s in searches(f) if field in s["base_fields"]]
+    ss = [(g, s) for g, s, fields in searches_reachable(F, f, not_into) if field in fields]
     if not ss:
         raise AnchorMissing("search over `%s` in %s" % (field, fn_path))
     res = []
-    for n, s in enumerate(ss):
+    for n, (g, s) in enumerate(ss):
         key = "%s/innermost-binding-wins%s" % (keybase, "" if n == 0 else "#%d" % n)
         d, index_ok = direction(s)
-        shape = "%s over .%s" % ("/".join(s["adapters"] + ([s["terminal"]] if s["terminal"] != "for" else ["for"])), field)
-        if not s["first_hit"]:
-            res.append(undecided(rid, key, f.loc(s["ln"]), "search without an early exit (%s): cannot tell which match is used" % shape))
+        keeps_last = bool(s.get("last_hit")) and not s["first_hit"]
+        if keeps_last:
+            d = "forward" if d == "reverse" else "reverse"
+        shape = "%s over .%s%s" % ("/".join(s["adapters"] + ([s["terminal"]] if s["terminal"] != "for" else ["for"])), field,
+                                  "" if g is f else " in %s" % g.name)
+        if keeps_last:
+            shape += ", every hit recorded, no early exit"
+        if not s["first_hit"] and not keeps_last:
+            res.append(undecided(rid, key, g.loc(s["ln"]), "search without an early exit (%s): cannot tell which match is used" % shape))
         elif d == "forward":
-            res.append(bad(rid, key, f.loc(s["ln"]),
-                           "%s scans `%s` front to back and stops at the first hit (%s): when a name is bound twice in one function "
+            res.append(bad(rid, key, g.loc(s["ln"]),
+                           "%s scans `%s` %s (%s): when a name is bound twice in one function "
                            "(a loop variable shadowing a parameter, an outer loop variable or an earlier local) the OUTER binding is "
-                           "used, reads and writes in the inner scope go to the wrong slot" % (short(fn_path), field, shape),
+                           "used, reads and writes in the inner scope go to the wrong slot"
+                           % (short(fn_path), field, "back to front and keeps the last hit" if keeps_last else "front to back and stops at the first hit", shape),
                            adapters=s["adapters"], terminal=s["terminal"]))
         elif index_ok is False:
-            res.append(bad(rid, key, f.loc(s["ln"]),
+            res.append(bad(rid, key, g.loc(s["ln"]),
                            "%s: the index reported by the reversed search counts from the back (%s), it is used as a front-based slot"
                            % (short(fn_path), shape), adapters=s["adapters"], terminal=s["terminal"]))
         else:
-            res.append(ok(rid, key, f.loc(s["ln"]), "reverse first-hit scan, front-based index (%s)" % shape,
+            res.append(ok(rid, key, g.loc(s["ln"]), "%s, front-based index (%s)" % ("forward scan that keeps the last hit" if keeps_last else "reverse first-hit scan", shape),
                           adapters=s["adapters"], terminal=s["terminal"]))
     return res
